@@ -794,3 +794,38 @@ def unmerge_aliases(fn: ast.FunctionDef, want: List[str]) -> None:
                 break
         if not done:
             return
+
+
+def with_tail_temps(fn: ast.FunctionDef, want: List[str]) -> None:
+    """(f'') `with ctx as f: t = E(f)` directly followed by the single read of the new local t: the read is substituted (the context manager only
+    adds the release of the resource; what is computed from what is unchanged)."""
+    stores: Dict[str, int] = {}
+    loads: Dict[str, int] = {}
+    for n in ast.walk(fn):
+        if isinstance(n, ast.Name):
+            d = stores if isinstance(n.ctx, (ast.Store, ast.Del)) else loads
+            d[n.id] = d.get(n.id, 0) + 1
+    for p in ast.walk(fn):
+        for fld in ("body", "orelse", "finalbody"):
+            lst = getattr(p, fld, None)
+            if not isinstance(lst, list):
+                continue
+            for i, st in enumerate(lst[:-1]):
+                if not (isinstance(st, ast.With) and st.body and isinstance(st.body[-1], ast.Assign) and len(st.body[-1].targets) == 1 and isinstance(st.body[-1].targets[0], ast.Name)):
+                    continue
+                a = st.body[-1]
+                nm = a.targets[0].id
+                if nm in want or stores.get(nm) != 1 or loads.get(nm) != 1:
+                    continue
+                nxt = lst[i + 1]
+                if isinstance(nxt, (ast.For, ast.While, ast.If, ast.With, ast.Try, ast.FunctionDef, ast.ClassDef, ast.Match)):
+                    continue
+                if sum(1 for x in ast.walk(nxt) if isinstance(x, ast.Name) and x.id == nm) != 1:
+                    continue
+                lst[i + 1] = _Subst({nm: a.value}).visit(nxt)
+                st.body = st.body[:-1] or [ast.copy_location(ast.Pass(), a)]
+                # `with open(..) as f: pass` + use of f afterwards: bind the resource as a plain assignment so that later rules see `f = open(..)`
+                if len(st.items) == 1 and isinstance(st.items[0].optional_vars, ast.Name) and isinstance(st.body[0], ast.Pass) and len(st.body) == 1:
+                    lst[i] = ast.copy_location(ast.Assign(targets=[st.items[0].optional_vars], value=st.items[0].context_expr), st)
+                ast.fix_missing_locations(lst[i])
+                return
